@@ -146,6 +146,10 @@ func NewSortValue(val value.Primary, flags *option.Flags) *SortValue {
 		} else {
 			sortValue.Integer = 0
 		}
+		if s, ok := val.(*value.String); ok {
+			// a text that reads as a boolean ("t", "false") is still ordered as a text among other texts
+			sortValue.String = strings.ToUpper(option.TrimSpace(s.Raw()))
+		}
 	} else if s, ok := val.(*value.String); ok {
 		sortValue.Type = StringType
 		sortValue.String = strings.ToUpper(option.TrimSpace(s.Raw()))
@@ -187,6 +191,8 @@ func (v *SortValue) Less(compareValue *SortValue) ternary.Value {
 			return ternary.ConvertFromBool(v.Float < compareValue.Float)
 		case StringType:
 			return ternary.ConvertFromBool(v.String < compareValue.String)
+		case BooleanType:
+			return v.lessAsText(compareValue)
 		}
 	case FloatType:
 		switch compareValue.Type {
@@ -211,6 +217,8 @@ func (v *SortValue) Less(compareValue *SortValue) ternary.Value {
 			return ternary.ConvertFromBool(v.Float < compareValue.Float)
 		case StringType:
 			return ternary.ConvertFromBool(v.String < compareValue.String)
+		case BooleanType:
+			return v.lessAsText(compareValue)
 		}
 	case DatetimeType:
 		switch compareValue.Type {
@@ -230,10 +238,32 @@ func (v *SortValue) Less(compareValue *SortValue) ternary.Value {
 				return ternary.UNKNOWN
 			}
 			return ternary.ConvertFromBool(v.String < compareValue.String)
+		case BooleanType:
+			return v.lessAsText(compareValue)
+		}
+	case BooleanType:
+		switch compareValue.Type {
+		case IntegerType, FloatType, StringType, BooleanType:
+			return v.lessAsText(compareValue)
 		}
 	}
 
 	return ternary.UNKNOWN
+}
+
+// lessAsText compares the texts of two values one of which is a text that reads as a boolean. Boolean values that are
+// not texts have no order, and texts that read as the same boolean are equal ("t" = "true").
+func (v *SortValue) lessAsText(compareValue *SortValue) ternary.Value {
+	if (v.Type == BooleanType && len(v.String) < 1) || (compareValue.Type == BooleanType && len(compareValue.String) < 1) {
+		return ternary.UNKNOWN
+	}
+	if v.String == compareValue.String {
+		return ternary.UNKNOWN
+	}
+	if v.Type == BooleanType && compareValue.Type == BooleanType && v.Integer == compareValue.Integer {
+		return ternary.UNKNOWN
+	}
+	return ternary.ConvertFromBool(v.String < compareValue.String)
 }
 
 func (v *SortValue) EquivalentTo(compareValue *SortValue) bool {
